@@ -178,7 +178,9 @@ func (s *Statement) unevict(
 	}
 	reclaimee.GPUGroups = previousGpuGroups
 	reclaimee.IsVirtualStatus = previousIsVirtualStatus
-	reclaimee.ResourceClaimInfo = previousResourceClaimInfo
+	// a copy: the plugins update the task's claim info in place, and the saved one may be needed again when
+	// this un-evict is itself rolled back (redo of the eviction) and the eviction undone once more
+	reclaimee.ResourceClaimInfo = previousResourceClaimInfo.Clone()
 
 	// Update task in node.
 	if node != nil {
@@ -489,7 +491,7 @@ func (s *Statement) unpipeline(
 	hostname := task.NodeName
 	task.NodeName = previousNode
 	task.GPUGroups = previousGpuGroups
-	task.ResourceClaimInfo = previousResourceClaimInfo
+	task.ResourceClaimInfo = previousResourceClaimInfo.Clone()
 	task.IsVirtualStatus = previousIsVirtualStatus
 
 	if node, found := s.ssn.ClusterInfo.Nodes[hostname]; found {
